@@ -141,8 +141,10 @@ impl<K> KeyHashDate<K> {
     pub fn new(key: Rc<K>, hash: u64, timestamp: Option<Instant>) -> (r: Self) ensures r.key == key, r.hash == hash, r.timestamp == timestamp { Self { key, hash, timestamp } }
 }
 #[verifier::reject_recursive_types(T)]
-pub struct DeqNode<T> { pub element: T }
-/// a list node's own timestamp is read through a raw pointer: UNCONSTRAINED in this model
+pub struct DeqNode<T> { pub element: T, pub ident: Ghost<int> }
+impl<T> DeqNode<T> { pub open spec fn node_id(&self) -> int { self.ident@ } }
+/// a list node's own timestamp is read through a raw pointer: uninterpreted here, tied to the owning entry's stamp by the
+/// two coupling axioms `axiom_stamp_ao` / `axiom_stamp_wo` below (the only places where the model says what such a read gives)
 impl<K> AccessTime for DeqNode<KeyHashDate<K>> {
     uninterp spec fn sp_last_accessed(&self) -> Option<Instant>;
     open spec fn sp_last_modified(&self) -> Option<Instant> { None }
@@ -168,13 +170,16 @@ impl<T> Deque<T> { pub uninterp spec fn view(&self) -> Seq<N>; }
 pub open spec fn has_id(s: Seq<N>, id: int) -> bool { exists|i: int| 0 <= i < s.len() && (#[trigger] s[i]).id == id }
 pub open spec fn index_of_id(s: Seq<N>, id: int) -> int { choose|i: int| 0 <= i < s.len() && (#[trigger] s[i]).id == id }
 pub open spec fn moved_to_back(s: Seq<N>, i: int) -> Seq<N> { s.remove(i).push(s[i]) }
+/// id of the front node; opaque so that the heavy list proofs that peek at the front do not see one more `.id` term
+#[verifier::opaque]
+pub open spec fn front_id(s: Seq<N>) -> int { s[0].id }
 
 impl<K> Deque<KeyHashDate<K>> {
 //@@ SIG file=src/common/deque.rs owner=Deque name=peek_front types=loose
     #[verifier::external_body]
     pub fn peek_front(&self) -> (r: Option<&DeqNode<KeyHashDate<K>>>)
         ensures match r {
-            Some(n) => self@.len() > 0 && kid_rc(n.element.key) == self@[0].key && n.element.hash == self@[0].hash,
+            Some(n) => self@.len() > 0 && kid_rc(n.element.key) == self@[0].key && n.element.hash == self@[0].hash && n.node_id() == front_id(self@),
             None => self@.len() == 0,
         }
     { unimplemented!() }
@@ -192,7 +197,7 @@ impl<K> Deque<KeyDate<K>> {
     #[verifier::external_body]
     pub fn peek_front(&self) -> (r: Option<&DeqNode<KeyDate<K>>>)
         ensures match r {
-            Some(n) => self@.len() > 0 && kid_rc(n.element.key) == self@[0].key,
+            Some(n) => self@.len() > 0 && kid_rc(n.element.key) == self@[0].key && n.node_id() == front_id(self@),
             None => self@.len() == 0,
         }
     { unimplemented!() }
@@ -208,6 +213,21 @@ impl<K> Deque<KeyDate<K>> {
 
 #[derive(Clone, Copy)]
 pub enum CacheRegion { Window = 0, MainProbation = 1, MainProtected = 2, Other = 3 }
+
+/// THE ENTRY <-> NODE TIMESTAMP COUPLING (trusted; raw pointers). In `src/unsync.rs` an entry's stamps physically live in
+/// its list nodes: `ValueEntry::last_accessed()` dereferences `access_order_q_node` and reads `element.timestamp` of that
+/// node, `last_modified()` the same through `write_order_q_node`; the setters write there. The model attributes the stamps
+/// to the entry (`ta()`, `tm()`: they are only ever *written* through the entry), so a *read through the list*
+/// (`peek_front` in the two expiry scans) needs this statement: the node a list has just handed out carries the stamp of the
+/// entry whose slot points to it. Usage discipline (checked by reading the two call sites, not by Verus): `e` is the map's
+/// current entry for the key of the list's front node, and the axiom is invoked immediately before the `peek_front` whose
+/// result it describes (one instance per loop iteration, i.e. per verification condition).
+pub axiom fn axiom_stamp_ao<K, V>(e: &ValueEntry<K, V>)
+    requires e.ao().is_some()
+    ensures forall|n: &DeqNode<KeyHashDate<K>>| #[trigger] n.node_id() == e.ao().unwrap() ==> n.sp_last_accessed() == e.ta();
+pub axiom fn axiom_stamp_wo<K, V>(e: &ValueEntry<K, V>)
+    requires e.wo().is_some()
+    ensures forall|n: &DeqNode<KeyDate<K>>| #[trigger] n.node_id() == e.wo().unwrap() ==> n.sp_last_modified() == e.tm();
 
 #[verifier::reject_recursive_types(K)]
 pub struct Deques<K> {
@@ -1155,8 +1175,14 @@ where
     }
     /// C05 / C06, from the property statements: the entry's time-to-live or time-to-idle deadline is at or before `now`
     pub open spec fn sp_expired(&self, e: &ValueEntry<K, V>, now: Instant) -> bool {
-        ||| (self.time_to_live.is_some() && e.sp_last_modified().is_some() && e.sp_last_modified().unwrap().t() + dur_ns(self.time_to_live.unwrap()) <= now.t())
-        ||| (self.time_to_idle.is_some() && e.sp_last_accessed().is_some() && e.sp_last_accessed().unwrap().t() + dur_ns(self.time_to_idle.unwrap()) <= now.t())
+        ||| Self::exp_wo(self.time_to_live, e, now)
+        ||| Self::exp_ao(self.time_to_idle, e, now)
+    }
+    pub open spec fn exp_wo(ttl: Option<Duration>, e: &ValueEntry<K, V>, now: Instant) -> bool {
+        ttl.is_some() && e.sp_last_modified().is_some() && e.sp_last_modified().unwrap().t() + dur_ns(ttl.unwrap()) <= now.t()
+    }
+    pub open spec fn exp_ao(tti: Option<Duration>, e: &ValueEntry<K, V>, now: Instant) -> bool {
+        tti.is_some() && e.sp_last_accessed().is_some() && e.sp_last_accessed().unwrap().t() + dur_ns(tti.unwrap()) <= now.t()
     }
     /// The one clock reading an operation that starts in state `self` takes. Time is *named*, not modelled: every
     /// contract below holds for an arbitrary value of this reading (it is uninterpreted), nothing relates two readings.
@@ -1179,6 +1205,8 @@ where
     pub open spec fn rel_evict_expired(pre: Self, post: Self) -> bool {
         &&& Self::rel_purge(pre, post)
         &&& (!pre.sp_has_expiry() ==> post.same_views(&pre))
+        // C03: only entries whose deadline has passed at this operation's clock reading are purged
+        &&& forall|k: KeyId| pre.cache@.contains_key(k) && !(#[trigger] post.cache@.contains_key(k)) ==> pre.sp_expired(&pre.cache@[k], pre.sp_now())
     }
     /// size eviction (evict_lru_entries): exactly the shortest sufficient LRU prefix goes (C12), nothing when within capacity (C03)
     pub open spec fn rel_evict_lru(pre: Self, post: Self) -> bool {
@@ -1313,6 +1341,8 @@ where
             final(self).inv_count(), //@ [C10]
             final(self).inv_weight(), //@ [C10,C03,C04,C12]
             Self::rel_purge(*old(self), *final(self)), //@ [C15,C14,C12,C01]
+            // C03: only entries whose time-to-live or time-to-idle deadline has passed at `now` are purged
+            forall|k: KeyId| old(self).cache@.contains_key(k) && !(#[trigger] final(self).cache@.contains_key(k)) ==> old(self).sp_expired(&old(self).cache@[k], now), //@ [C03]
     {
         let ghost p0 = self.deques.probation@; //@
         proof { lemma_ord_refl(p0); lemma_wsum_nonneg(p0, self.cache@); } //@
@@ -1322,7 +1352,7 @@ where
             self.entry_count -= count;
             self.saturating_sub_from_total_weight(weight);
         }
-        let ghost p1 = self.deques.probation@; //@
+        let ghost p1 = self.deques.probation@; let ghost m1 = self.cache@; //@
         proof { lemma_wsum_nonneg(p1, self.cache@); } //@
 
         if self.time_to_idle.is_some() {
@@ -1346,13 +1376,18 @@ where
             self.saturating_sub_from_total_weight(weight2);
             self.saturating_sub_from_total_weight(weight3);
         }
+        proof { //@
+            assert forall|k: KeyId| old(self).cache@.contains_key(k) && !(#[trigger] self.cache@.contains_key(k)) implies old(self).sp_expired(&old(self).cache@[k], now) by { //@
+                if m1.contains_key(k) { assert(m1[k] == old(self).cache@[k]); } //@
+            } //@
+        } //@
     }
 //@@ END
 
     /// `core_wf` for the (unknown to this static function) time-to-live flag
     pub open spec fn core_wf_any(m: Map<KeyId, ValueEntry<K, V>>, p: Seq<N>, wo: Seq<N>) -> bool { core_wf(m, p, wo, true) || core_wf(m, p, wo, false) }
 
-//@@ FN file=src/unsync/cache.rs owner=Cache name=remove_expired_ao tags=C10,C06
+//@@ FN file=src/unsync/cache.rs owner=Cache name=remove_expired_ao tags=C10,C06,C03
     fn remove_expired_ao(
         deq_name: &str,
         deq: &mut Deque<KeyHashDate<K>>,
@@ -1375,6 +1410,10 @@ where
             r.1 == wsum(old(deq)@, old(cache)@) - wsum(final(deq)@, final(cache)@), //@ [C10,C03,C04]
             forall|k: KeyId| #[trigger] final(cache)@.contains_key(k) ==> old(cache)@.contains_key(k) && final(cache)@[k] == old(cache)@[k], //@ [C01,C15]
             ord_pres(old(deq)@, final(deq)@), //@ [C12,C15]
+            // C03: only entries whose idle deadline has passed at `now` are purged ...
+            forall|k: KeyId| old(cache)@.contains_key(k) && !(#[trigger] final(cache)@.contains_key(k)) ==> Self::exp_ao(*time_to_idle, &old(cache)@[k], now), //@ [C03]
+            // C06: ... and the purge goes on until the batch is used up, the list is empty or its front entry is still alive
+            r.0 == batch_size || final(deq)@.len() == 0 || !Self::exp_ao(*time_to_idle, &final(cache)@[final(deq)@[0].key], now), //@ [C06]
     {
         let mut evicted_entry_count = 0u64;
         let mut evicted_policy_weight = 0u64;
@@ -1382,7 +1421,9 @@ where
         let ghost ttl = core_wf(m0, p0, wo0, true); //@
         proof { lemma_wsum_bound(p0, m0); lemma_wsum_nonneg(p0, m0); lemma_ord_refl(p0); } //@
 
-        for _ in 0..batch_size
+        for _ in /*@+*/it:/*@-*/ 0..batch_size
+            invariant_except_break //@
+                evicted_entry_count == it.index@, //@
             invariant //@
                 time_to_idle.is_some() ==> dur_ns(time_to_idle.unwrap()) <= max_dur_ns(), //@
                 (p0.len() == 0 && deq@ == p0 && write_order_deq@ == wo0 && cache@ == m0) || core_wf(cache@, deq@, write_order_deq@, ttl), //@ [C08,C11,C12]
@@ -1394,10 +1435,14 @@ where
                 wsum(deq@, cache@) >= 0, wsum(p0, m0) <= p0.len() * 0xFFFF_FFFF, p0.len() < 0xFFFF_FFFF, //@
                 forall|k: KeyId| #[trigger] cache@.contains_key(k) ==> m0.contains_key(k) && cache@[k] == m0[k], //@ [C01,C15]
                 ord_pres(p0, deq@), //@ [C12,C15]
+                forall|k: KeyId| m0.contains_key(k) && !(#[trigger] cache@.contains_key(k)) ==> Self::exp_ao(*time_to_idle, &m0[k], now), //@ [C03]
+            ensures //@
+                evicted_entry_count == batch_size || deq@.len() == 0 || !Self::exp_ao(*time_to_idle, &cache@[deq@[0].key], now), //@ [C06]
         {
+            proof { reveal(front_id); if deq@.len() > 0 { axiom_stamp_ao(&cache@[deq@[0].key]); } } //@
             let key = deq
                 .peek_front()
-                .and_then(|node| /*@+*/-> (o: Option<Option<Rc<K>>>) ensures o.is_some() ==> o.unwrap().is_some() && o.unwrap().unwrap() == node.element.key/*@-*/ {
+                .and_then(|node| /*@+*/-> (o: Option<Option<Rc<K>>>) ensures o.is_some() ==> o.unwrap().is_some() && o.unwrap().unwrap() == node.element.key, o.is_some() == (time_to_idle.is_some() && node.sp_last_accessed().is_some() && node.sp_last_accessed().unwrap().t() + dur_ns(time_to_idle.unwrap()) <= now.t())/*@-*/ {
                     if Self::is_expired_entry_ao(time_to_idle, node, now) {
                         Some(Some(Rc::clone(&node.element.key)))
                     } else {
@@ -2522,7 +2567,7 @@ where
 //@@ END
 
     // Returns (u64, u64) where (evicted_entry_count, evicted_policy_weight).
-//@@ FN file=src/unsync/cache.rs owner=Cache name=remove_expired_wo tags=C10,C05
+//@@ FN file=src/unsync/cache.rs owner=Cache name=remove_expired_wo tags=C10,C05,C03
     fn remove_expired_wo(&mut self, batch_size: usize, now: Instant) -> (/*@+*/r: (/*@-*/u64, u64/*@+*/)/*@-*/)
         requires //@
             old(self).cfg_ok(), old(self).small(), //@
@@ -2542,6 +2587,10 @@ where
             r.1 == wsum(old(self).deques.probation@, old(self).cache@) - wsum(final(self).deques.probation@, final(self).cache@), //@ [C10,C03,C04]
             forall|k: KeyId| #[trigger] final(self).cache@.contains_key(k) ==> old(self).cache@.contains_key(k) && final(self).cache@[k] == old(self).cache@[k], //@ [C01,C15]
             ord_pres(old(self).deques.probation@, final(self).deques.probation@), final(self).expiration_clock == old(self).expiration_clock, //@ [C12,C15]
+            // C03: only entries whose time-to-live deadline has passed at `now` are purged ...
+            forall|k: KeyId| old(self).cache@.contains_key(k) && !(#[trigger] final(self).cache@.contains_key(k)) ==> Self::exp_wo(old(self).time_to_live, &old(self).cache@[k], now), //@ [C03]
+            // C05: ... and the purge goes on until the batch is used up, the write-order list is empty or its front entry is still alive
+            r.0 == batch_size || final(self).deques.write_order@.len() == 0 || !Self::exp_wo(old(self).time_to_live, &final(self).cache@[final(self).deques.write_order@[0].key], now), //@ [C05]
     {
         let mut evicted_entry_count = 0u64;
         let mut evicted_policy_weight = 0u64;
@@ -2549,7 +2598,9 @@ where
         let ghost m0 = self.cache@; let ghost p0 = self.deques.probation@; let ghost ttl = self.time_to_live.is_some(); //@
         proof { lemma_wsum_bound(p0, m0); lemma_wsum_nonneg(p0, m0); lemma_ord_refl(p0); } //@
 
-        for _ in 0..batch_size
+        for _ in /*@+*/it:/*@-*/ 0..batch_size
+            invariant_except_break //@
+                evicted_entry_count == it.index@, //@
             invariant //@
                 ttl == self.time_to_live.is_some(), self.time_to_live == old(self).time_to_live, self.time_to_idle == old(self).time_to_idle, //@
                 self.max_capacity == old(self).max_capacity, self.build_hasher == old(self).build_hasher, //@
@@ -2566,12 +2617,16 @@ where
                 wsum(self.deques.probation@, self.cache@) >= 0, wsum(p0, m0) <= p0.len() * 0xFFFF_FFFF, p0.len() < 0xFFFF_FFFF, //@
                 forall|k: KeyId| #[trigger] self.cache@.contains_key(k) ==> m0.contains_key(k) && self.cache@[k] == m0[k], //@ [C01,C15]
                 ord_pres(p0, self.deques.probation@), self.expiration_clock == old(self).expiration_clock, //@ [C12,C15]
+                forall|k: KeyId| m0.contains_key(k) && !(#[trigger] self.cache@.contains_key(k)) ==> Self::exp_wo(old(self).time_to_live, &m0[k], now), //@ [C03]
+            ensures //@
+                evicted_entry_count == batch_size || self.deques.write_order@.len() == 0 || !Self::exp_wo(old(self).time_to_live, &self.cache@[self.deques.write_order@[0].key], now), //@ [C05]
         {
+            proof { reveal(front_id); if self.deques.write_order@.len() > 0 && ttl { lemma_index_of_id(self.deques.write_order@, 0); axiom_stamp_wo(&self.cache@[self.deques.write_order@[0].key]); } } //@
             let key = self
                 .deques
                 .write_order
                 .peek_front()
-                .and_then(|node| /*@+*/-> (o: Option<Option<Rc<K>>>) ensures o.is_some() ==> o.unwrap().is_some() && o.unwrap().unwrap() == node.element.key/*@-*/ {
+                .and_then(|node| /*@+*/-> (o: Option<Option<Rc<K>>>) ensures o.is_some() ==> o.unwrap().is_some() && o.unwrap().unwrap() == node.element.key, o.is_some() == (time_to_live.is_some() && node.sp_last_modified().is_some() && node.sp_last_modified().unwrap().t() + dur_ns(time_to_live.unwrap()) <= now.t())/*@-*/ {
                     if Self::is_expired_entry_wo(time_to_live, node, now) {
                         Some(Some(Rc::clone(&node.element.key)))
                     } else {
@@ -2728,6 +2783,28 @@ pub proof fn lemma_c03_housekeeping_idle<K: Hash + Eq, V, S: BuildHasher + Clone
     assert(mid.sp_weights_to_evict() == 0);
 }
 
+/// C03: the expiry purge is precise: an entry that is live at the operation's clock reading survives it unchanged
+/// (rests on the entry <-> node timestamp coupling axioms of the environment, see `axiom_stamp_ao` / `axiom_stamp_wo`)
+pub proof fn lemma_c03_expiry_purge_is_precise<K: Hash + Eq, V, S: BuildHasher + Clone>(pre: Cache<K, V, S>, mid: Cache<K, V, S>, k: KeyId)
+    requires Cache::rel_evict_expired(pre, mid), pre.cache@.contains_key(k), !pre.sp_expired(&pre.cache@[k], pre.sp_now())
+    ensures mid.cache@.contains_key(k), mid.cache@[k] == pre.cache@[k]
+{
+    assert(mid.cache@.contains_key(k));
+    assert(Cache::rel_purge(pre, mid));
+}
+/// C03: a cache built without max_capacity is exactly a map with expiry: whatever housekeeping runs, every entry that is
+/// live at the operation's clock reading is still there, unchanged
+pub proof fn lemma_c03_unbounded_keeps_live<K: Hash + Eq, V, S: BuildHasher + Clone>(pre: Cache<K, V, S>, post: Cache<K, V, S>, k: KeyId)
+    requires Cache::rel_hk(pre, post), pre.max_capacity.is_none(), pre.cache@.contains_key(k), !pre.sp_expired(&pre.cache@[k], pre.sp_now())
+    ensures post.cache@.contains_key(k), post.cache@[k] == pre.cache@[k]
+{
+    let mid = choose|mid: Cache<K, V, S>| #[trigger] Cache::rel_evict_expired(pre, mid) && Cache::rel_evict_lru(mid, post);
+    lemma_c03_expiry_purge_is_precise(pre, mid, k);
+    assert(mid.max_capacity == pre.max_capacity);
+    assert(mid.sp_weights_to_evict() == 0);
+    assert(post.same_views(&mid));
+}
+
 /// C04: an insert of a NEW key never takes the cache above max_capacity (only an update that grows a weight can, C04's exception)
 pub proof fn lemma_c04_new_key_within_capacity<K: Hash + Eq, V, S: BuildHasher + Clone>(mid: Cache<K, V, S>, post: Cache<K, V, S>, k: KeyId, v: V, w: u32, ts: Option<Instant>, hash: u64)
     requires Cache::rel_insert(mid, post, k, v, w, ts, hash), !Cache::case_update(mid, k), mid.wf(),
@@ -2836,7 +2913,7 @@ pub mod canary {
 use vstd::prelude::*;
 use super::env::*;
 broadcast use {axiom_kid_rc, axiom_dur_nonneg, axiom_ptr_reads, axiom_rc_reads, axiom_f64_mul_ok, axiom_f64_div_ok};
-pub proof fn verif_canary_unsync<K>(d: &Deque<KeyHashDate<K>>) ensures false { axiom_frozen(d); }
+pub proof fn verif_canary_unsync<K, V>(d: &Deque<KeyHashDate<K>>, e: &ValueEntry<K, V>) requires e.ao().is_some(), e.wo().is_some() ensures false { axiom_frozen(d); axiom_stamp_ao(e); axiom_stamp_wo(e); }
 }
 }
 fn main() {}
